@@ -83,7 +83,7 @@ structure FlowRep where
   procs : List (String × String)
   req : List Conn
   res : List Conn
-deriving Repr, Inhabited
+deriving DecidableEq, Repr, Inhabited
 
 def FlowRep.conns (f : FlowRep) : Dir → List Conn
   | .req => f.req
@@ -241,7 +241,7 @@ structure Flow where
   name : String
   req : DirGraph
   res : DirGraph
-deriving Repr, Inhabited
+deriving DecidableEq, Repr, Inhabited
 
 def Flow.dir (f : Flow) : Dir → DirGraph
   | .req => f.req
